@@ -288,9 +288,12 @@ def model_req(opset, solos, proto, chosen, nclients):
         idx = [i for i, (cc, _) in enumerate(opset) if cc == c]
         procs = [{"v3": proto[0] == "v3", "reqs": [100 * i + k for k in range(len(solos[i]["requests"][0]))], "res": i} for i in idx]
         sched = [idx.index(i) for i in chosen if i in idx]
-        # replies on which V3MPM.decode forgets the discovery data (an SnmpError raised while the
-        # message is processed): here the error-status answers to the SET of the read-only object
-        forget = [100 * i + k for i in idx if proto[0] == "v3" and opset[i][1][0] == "set" and list(opset[i][1][1]) == READONLY for k in range(len(solos[i]["requests"][0]))]
+        # replies on which V3MPM.decode forgets the discovery data: an SnmpError raised while the
+        # message is processed, i.e. USM reports.  (Error-status responses were among them until the
+        # usmStats repair: validate_usm_message used to force every PDU; now only Reports are read
+        # there and an ErrorResponse surfaces in _send, outside decode.)  None of the operations
+        # here draws a report.
+        forget = []
         reqs.append(({"op": "conc.run", "procs": procs, "schedule": sched, "forget": forget}, idx))
     return reqs
 
